@@ -4,7 +4,8 @@ CONSTANT CheckArgs   \* TRUE: the kwarg a seen by a queue-event handler is compa
 VARIABLES tid, l
 tvars == <<vars, tid, l>>
 TL == TraceLines[tid].ev
-TInit == /\ tid \in 1..Len(TraceLines) /\ l = 1 /\ Init
+IsModeTask(k) == tasks[k].ev \in ModeIntEv
+TInit == /\ tid \in 1..Len(TraceLines) /\ l = 1 /\ Init /\ md.kind = TraceLines[tid].kind
 Step(e) ==
     \/ e.op = "qadd" /\ AddQ(e.h, e.ev, e.prio, e.hk, e.cond)
     \/ e.op = "qremove" /\ RemoveQ(e.h)
@@ -13,11 +14,24 @@ Step(e) ==
     \/ e.op = "wait" /\ Wait /\ inh = <<e.k, e.h>>
     \/ e.op = "qret" /\ QRet
     \/ e.op = "clear" /\ Clear(e.k, e.h)
-    \/ e.op = "qcallback" /\ QCallback(e.k)
-    \/ e.op = "rest" /\ Rest /\ UNCHANGED vars
+    \/ e.op = "qcallback" /\ QCallback(e.k) /\ ~IsModeTask(e.k)
+    \* the mode's start handler was called for request k: whether it accepted, and whether a wait is now registered
+    \* on the request's QueuedEvent
+    \/ e.op = "mreq" /\ QInvokeMode(e.k) /\ e.acc = act'.acc /\ e.w = act'.w
+    \/ e.op = "mstart" /\ ModeStart(e.c) /\ e.acc = act'.acc
+    \/ e.op = "mstop" /\ ModeStop /\ e.r = act'.r
+    \* Mode.start called again by the mode itself for a request it had put off while cleaning up
+    \/ e.op = "mdeferred" /\ e.acc /\ ModeCleaned /\ act'.go
+    \/ e.op = "mdeferred" /\ ~e.acc /\ md.st = "starting" /\ UNCHANGED vars
+    \* the loop has run until nothing moves: every queue event is complete or held by a wait; the mode's state
+    \/ e.op = "rest" /\ Rest /\ e.mst = md.st /\ UNCHANGED vars
 TNext == \/ l <= Len(TL) /\ Step(TL[l]) /\ l' = l + 1 /\ UNCHANGED tid
          \/ (\E k \in DOMAIN tasks, h \in Hid : SkipRemoved(k, h)) /\ UNCHANGED <<tid, l>>
          \/ (\E k \in DOMAIN tasks : QBegin(k)) /\ UNCHANGED <<tid, l>>
+         \* the completion callbacks of the mode's own queue events (Mode._started / Mode._stopped) are not logged:
+         \* they are observed through the mode's state and through what they release
+         \/ (\E k \in DOMAIN tasks : IsModeTask(k) /\ QCallback(k)) /\ UNCHANGED <<tid, l>>
+         \/ ModeCleaned /\ ~act'.go /\ UNCHANGED <<tid, l>>
 TSpec == TInit /\ [][TNext]_tvars
 Reporter == TraceReport(tid, l, Len(TL))
 =============================================================================
